@@ -1,9 +1,23 @@
 import PySMT.Proofs.C07ReadMain
+import PySMT.Proofs.SimpArrayVal
 /-!
 # C07: `read_toSexp`, `print_sound`
 -/
 namespace PySMT.Printer
 open PySMT.Std PySMT.Sexp
+
+theorem unfoldAV_eq : ∀ (t : Term), unfoldAV t = unfoldAVw true t
+  | .node op args p => by
+    have hmap : args.map unfoldAV = args.map (unfoldAVw true) :=
+      List.map_congr_left (fun a _ => unfoldAV_eq a)
+    unfold unfoldAV unfoldAVw
+    simp only [hmap, if_true]
+termination_by t => sizeOf t
+decreasing_by
+  simp_wf
+  rename_i h
+  have := List.sizeOf_lt_of_mem h
+  omega
 
 /-- **The standard's reading of the tree printer's output is the formula itself** (an array value being read as the
 chain of stores it is printed as): for every term that satisfies the hypotheses `Printable` (well-typed with canonical
@@ -15,7 +29,7 @@ theorem read_toSexp (env : SEnv) (t : Term) (h : Printable env [] t = true) :
   simp only [readStd, readStdTy, List.reverse_nil, List.map_nil, toSexp]
   have := hr.2
   simp only [List.map_nil] at this
-  rw [this]
+  rw [this, unfoldAV_eq]
   rfl
 
 /-- … and it has the formula's sort -/
@@ -26,7 +40,8 @@ theorem read_toSexp_sort (env : SEnv) (t : Term) (h : Printable env [] t = true)
   simp only [readStdTy, List.reverse_nil, List.map_nil, toSexp]
   have := hr.2
   simp only [List.map_nil] at this
-  exact this
+  rw [this, unfoldAV_eq]
+  rfl
 
 /-! ## the unfolded term has the same value -/
 
@@ -66,38 +81,190 @@ theorem eval_storeChain (I : Interp) : ∀ (l : List (Term × Term)) (acc : Term
     simp only [List.foldl_cons]
     rw [eval_storeChain I l, eval_store]
 
-theorem eval_unfoldAV : ∀ (t : Term), avOrdered t = true → ∀ I, eval I (unfoldAV t) = eval I t
+/-! ### any order of the assignments denotes the same array (keys: distinct values of a non-array sort) -/
+
+theorem insertBy_perm {α} (key : α → String) (x : α) : ∀ (acc : List α), (insertBy key x acc).Perm (x :: acc)
+  | [] => List.Perm.refl _
+  | y :: ys => by
+    simp only [insertBy]
+    split
+    · exact List.Perm.refl _
+    · exact ((insertBy_perm key x ys).cons y).trans (List.Perm.swap x y ys)
+
+theorem sortBy_perm {α} (key : α → String) (l : List α) : (sortBy key l).Perm l := by
+  unfold sortBy
+  have : ∀ (r acc : List α), (List.foldl (fun acc x => insertBy key x acc) acc r).Perm (r ++ acc) := by
+    intro r
+    induction r with
+    | nil => intro acc; exact List.Perm.refl _
+    | cons x r ih =>
+      intro acc
+      simp only [List.foldl_cons]
+      refine (ih _).trans ?_
+      refine (List.Perm.append_left r (insertBy_perm key x acc)).trans ?_
+      simpa using (List.perm_middle (a := x) (l₁ := r) (l₂ := acc))
+  have h := this l.reverse []
+  simp only [List.append_nil] at h
+  exact h.trans (List.reverse_perm l)
+
+/-- the value of a chain of stores, innermost last -/
+def storesR (idx : Ty) (d : Val) (P : List (Val × Val)) : Val :=
+  P.foldr (fun kv acc => acc.store kv.1 kv.2) (.aconst idx d)
+
+theorem storesR_spec {idx : Ty} (ord : KeyOrd (fun v => v.hasSort idx = true)) (d : Val) :
+    ∀ (P : List (Val × Val)), (∀ kv ∈ P, kv.1.hasSort idx = true) →
+      Val.CanonV idx (storesR idx d P) ∧
+      (∀ j, j.hasSort idx = true → (storesR idx d P).select j = Val.lookupEnt j d P) ∧
+      (Val.smallDomain idx = none → (storesR idx d P).arrDefault = d)
+  | [], _ => ⟨Val.CanonV.aconst idx d, fun _ _ => rfl, fun _ => rfl⟩
+  | (k, v) :: rest, h => by
+    obtain ⟨h1, h2, h3⟩ := storesR_spec ord d rest (fun kv hkv => h kv (List.mem_cons_of_mem _ hkv))
+    obtain ⟨s1, s2, s3⟩ := Val.CanonV.store ord v h1 (h (k, v) (by simp))
+    refine ⟨s1, ?_, fun hn => ?_⟩
+    · intro j hj
+      show (Val.store (storesR idx d rest) k v).select j = _
+      rw [s2 j hj, h2 j hj, Val.lookupEnt_cons]
+    · show (Val.store (storesR idx d rest) k v).arrDefault = _
+      rw [s3 hn, h3 hn]
+
+theorem lookupEnt_perm (j d : Val) {P Q : List (Val × Val)} (hp : P.Perm Q) (hn : Val.KeysNodup P) :
+    Val.lookupEnt j d P = Val.lookupEnt j d Q := by
+  have hnq : Val.KeysNodup Q := (List.Perm.pairwise_iff (fun h => fun e => h e.symm) hp).1 hn
+  by_cases hex : ∃ kv ∈ P, kv.1 = j
+  · obtain ⟨kv, hkv, rfl⟩ := hex
+    rw [Val.lookupEnt_mem d P hn kv hkv, Val.lookupEnt_mem d Q hnq kv (hp.mem_iff.1 hkv)]
+  · have h1 : ∀ kv ∈ P, kv.1 ≠ j := fun kv hkv e => hex ⟨kv, hkv, e⟩
+    have h2 : ∀ kv ∈ Q, kv.1 ≠ j := fun kv hkv => h1 kv (hp.mem_iff.2 hkv)
+    rw [Val.lookupEnt_notin j d P h1, Val.lookupEnt_notin j d Q h2]
+
+/-- store chains over the same constant array with the same assignments in any order are the same value -/
+theorem storesR_perm {idx : Ty} (hidx : idx.scalar = true) (d : Val) {P Q : List (Val × Val)} (hp : P.Perm Q)
+    (hk : ∀ kv ∈ P, kv.1.hasSort idx = true) (hn : Val.KeysNodup P) : storesR idx d P = storesR idx d Q := by
+  have ord := keyOrd idx hidx
+  have hkq : ∀ kv ∈ Q, kv.1.hasSort idx = true := fun kv hkv => hk kv (hp.mem_iff.2 hkv)
+  obtain ⟨a1, a2, a3⟩ := storesR_spec ord d P hk
+  obtain ⟨b1, b2, b3⟩ := storesR_spec ord d Q hkq
+  refine Val.CanonV.ext ord a1 b1 (fun hsd => by rw [a3 hsd, b3 hsd]) (fun j hj => ?_)
+  rw [a2 j hj, b2 j hj, lookupEnt_perm j d hp hn]
+
+theorem eval_const {t : Term} {v : Val} (h : constVal t = some v) (I : Interp) : eval I t = v := by
+  unfold constVal at h
+  split at h <;> simp only [Option.some.injEq, reduceCtorEq] at h <;> subst h <;>
+    simp only [eval_node, evalNode, List.map_nil, evalOp]
+
+theorem pairwiseNe_spec : ∀ (l : List Val), pairwiseNe l = true → l.Pairwise (· ≠ ·)
+  | [], _ => List.Pairwise.nil
+  | x :: xs, h => by
+    simp only [pairwiseNe, Bool.and_eq_true, Bool.not_eq_true'] at h
+    refine List.Pairwise.cons ?_ (pairwiseNe_spec xs h.2)
+    intro y hy e
+    subst e
+    have := h.1
+    simp only [List.contains_eq_mem, decide_eq_false_iff_not] at this
+    exact this hy
+
+/-- **An array value and the chain of stores it is printed as (in either printer's order) have the same value**, when the
+keys of every array value are pairwise different constants of a non-array index sort (`avGuard`). -/
+theorem eval_unfoldAVw (srt : Bool) : ∀ (t : Term), avGuard t = true → ∀ I, eval I (unfoldAVw srt t) = eval I t
   | .node op args p, h, I => by
-    rw [avOrdered.eq_def] at h
+    rw [avGuard.eq_def] at h
     simp only [Bool.and_eq_true, List.all_map, List.all_eq_true, Function.comp, id] at h
     obtain ⟨hargs, hnode⟩ := h
-    have ih : ∀ a ∈ args, ∀ J, eval J (unfoldAV a) = eval J a := fun a ha J => eval_unfoldAV a (hargs a ha) J
-    have hmap : (args.map unfoldAV).map (fun a J => eval J a) = args.map (fun a J => eval J a) := by
+    have ih : ∀ a ∈ args, ∀ J, eval J (unfoldAVw srt a) = eval J a := fun a ha J => eval_unfoldAVw srt a (hargs a ha) J
+    have hmap : (args.map (unfoldAVw srt)).map (fun a J => eval J a) = args.map (fun a J => eval J a) := by
       rw [List.map_map]
       apply List.map_congr_left
       intro a ha
       funext J
       exact ih a ha J
-    unfold unfoldAV
+    unfold unfoldAVw
     dsimp only
     split
     · next idx d rest ds restS hm =>
       simp only [List.map_cons, List.cons.injEq] at hm
       obtain ⟨rfl, rfl⟩ := hm
-      have hS : sortBy (fun e : Term × Term => hrStr e.1) (pairsOf rest) = (pairsOf rest).reverse := by
-        simpa using hnode
-      rw [pairsOf_map, zip_map_self]
-      have hsm := sortBy_map (α := Term × Term) (β := (Term × Term) × (Term × Term)) (fun kv => hrStr kv.1)
-        (fun e => hrStr e.1.1) (fun x => (x, unfoldAV x.1, unfoldAV x.2)) (fun _ => rfl) (pairsOf rest)
-      rw [hsm, hS, List.foldl_map]
-      have hfm := List.foldl_map (f := fun kv : Term × Term => (unfoldAV kv.1, unfoldAV kv.2))
+      simp only [Bool.and_eq_true, List.all_eq_true] at hnode
+      obtain ⟨⟨hscal, hkeys⟩, hne⟩ := hnode
+      have hidx : idx.scalar = true := by cases idx <;> simp_all [Ty.scalar]
+      -- the assignments in the printer's order
+      let S : List (Term × Term) := if srt then sortBy (fun kv => hrStr kv.1) (pairsOf rest) else pairsOf rest
+      have hSperm : S.Perm (pairsOf rest) := by
+        show (if srt then _ else _ : List (Term × Term)).Perm _
+        cases srt
+        · exact List.Perm.refl _
+        · exact sortBy_perm _ _
+      have hents : (if srt then sortBy (fun e : (Term × Term) × (Term × Term) => hrStr e.1.1)
+          ((pairsOf rest).zip (pairsOf (rest.map (unfoldAVw srt)))) else (pairsOf rest).zip (pairsOf (rest.map (unfoldAVw srt))))
+          = S.map (fun kv => (kv, (unfoldAVw srt kv.1, unfoldAVw srt kv.2))) := by
+        rw [pairsOf_map, zip_map_self]
+        show _ = (if srt then _ else _ : List (Term × Term)).map _
+        cases srt
+        · rfl
+        · exact sortBy_map _ _ _ (fun _ => rfl) _
+      rw [hents, List.foldl_map]
+      have hfm := List.foldl_map (f := fun kv : Term × Term => (unfoldAVw srt kv.1, unfoldAVw srt kv.2))
         (g := fun (acc : Term) (kv : Term × Term) => Term.node Op.arrayStore [acc, kv.1, kv.2] Payload.none)
-        (l := (pairsOf rest).reverse) (init := Term.node Op.arrayValue [unfoldAV d] (Payload.ty idx))
-      rw [← hfm, eval_storeChain, List.foldl_map, List.foldl_reverse, eval_constArr, eval_arrayValue, ih d (by simp) I]
-      apply foldr_congr_mem
-      intro kv hkv acc
-      have ⟨h1, h2⟩ := mem_pairsOf rest kv hkv
-      rw [ih kv.1 (List.mem_cons_of_mem _ h1) I, ih kv.2 (List.mem_cons_of_mem _ h2) I]
+        (l := S) (init := Term.node Op.arrayValue [unfoldAVw srt d] (Payload.ty idx))
+      have hfun : (fun (acc : Term) (kv : Term × Term) =>
+            Term.node Op.arrayStore [acc, (kv, unfoldAVw srt kv.1, unfoldAVw srt kv.2).2.1,
+              (kv, unfoldAVw srt kv.1, unfoldAVw srt kv.2).2.2] Payload.none)
+          = (fun acc kv => Term.node Op.arrayStore [acc, (unfoldAVw srt kv.1, unfoldAVw srt kv.2).1,
+              (unfoldAVw srt kv.1, unfoldAVw srt kv.2).2] Payload.none) := rfl
+      rw [hfun, ← hfm, eval_storeChain, List.foldl_map, eval_constArr, eval_arrayValue, ih d (by simp) I]
+      -- both sides are store chains over the same constant array
+      have evp : ∀ kv ∈ pairsOf rest, eval I (unfoldAVw srt kv.1) = eval I kv.1 ∧ eval I (unfoldAVw srt kv.2) = eval I kv.2 := by
+        intro kv hkv
+        have ⟨h1, h2⟩ := mem_pairsOf rest kv hkv
+        exact ⟨ih kv.1 (List.mem_cons_of_mem _ h1) I, ih kv.2 (List.mem_cons_of_mem _ h2) I⟩
+      have hL : List.foldl (fun a kv => Val.store a (eval I (unfoldAVw srt kv.1)) (eval I (unfoldAVw srt kv.2)))
+            (Val.aconst idx (eval I d)) S
+          = storesR idx (eval I d) (S.reverse.map (fun kv => (eval I kv.1, eval I kv.2))) := by
+        rw [storesR, List.foldr_map, ← List.foldl_reverse, List.reverse_reverse]
+        have : ∀ (l : List (Term × Term)) (acc : Val), (∀ kv ∈ l, kv ∈ pairsOf rest) →
+            List.foldl (fun a kv => Val.store a (eval I (unfoldAVw srt kv.1)) (eval I (unfoldAVw srt kv.2))) acc l
+              = List.foldl (fun a kv => Val.store a (eval I kv.1) (eval I kv.2)) acc l := by
+          intro l
+          induction l with
+          | nil => intro acc _; rfl
+          | cons kv l ihl =>
+            intro acc hl
+            simp only [List.foldl_cons]
+            rw [(evp kv (hl kv (by simp))).1, (evp kv (hl kv (by simp))).2]
+            exact ihl _ (fun x hx => hl x (List.mem_cons_of_mem _ hx))
+        exact this S _ (fun kv hkv => hSperm.mem_iff.1 hkv)
+      have hR : List.foldr (fun kv acc => Val.store acc (eval I kv.1) (eval I kv.2)) (Val.aconst idx (eval I d)) (pairsOf rest)
+          = storesR idx (eval I d) ((pairsOf rest).map (fun kv => (eval I kv.1, eval I kv.2))) := by
+        rw [storesR, List.foldr_map]
+      rw [hL, hR]
+      have hperm : (S.reverse.map (fun kv => (eval I kv.1, eval I kv.2))).Perm
+          ((pairsOf rest).map (fun kv => (eval I kv.1, eval I kv.2))) :=
+        ((List.reverse_perm S).trans hSperm).map _
+      -- keys: values of the index sort, pairwise different
+      have hkv : ∀ kv ∈ pairsOf rest, ∃ v, constVal kv.1 = some v ∧ v.hasSort idx = true := by
+        intro kv hkv
+        have := hkeys kv hkv
+        cases hc : constVal kv.1 with
+        | none => rw [hc] at this; simp at this
+        | some v => rw [hc] at this; exact ⟨v, rfl, this⟩
+      have hkeysR : ∀ kv ∈ (pairsOf rest).map (fun kv => (eval I kv.1, eval I kv.2)), kv.1.hasSort idx = true := by
+        intro kv hkv'
+        simp only [List.mem_map] at hkv'
+        obtain ⟨x, hx, rfl⟩ := hkv'
+        obtain ⟨v, hv, hs⟩ := hkv x hx
+        simp only [eval_const hv I, hs]
+      have hnodR : Val.KeysNodup ((pairsOf rest).map (fun kv => (eval I kv.1, eval I kv.2))) := by
+        have hpw := pairwiseNe_spec _ hne
+        rw [List.pairwise_map] at hpw
+        unfold Val.KeysNodup
+        rw [List.pairwise_map]
+        refine List.Pairwise.imp_of_mem ?_ hpw
+        intro x y hx hy hxy
+        obtain ⟨vx, hvx, _⟩ := hkv x hx
+        obtain ⟨vy, hvy, _⟩ := hkv y hy
+        simp only [eval_const hvx I, eval_const hvy I]
+        simpa [hvx, hvy] using hxy
+      have hpermS := hperm.symm
+      rw [← storesR_perm hidx (eval I d) hpermS hkeysR hnodR]
     · rw [eval_node, eval_node, hmap]
 termination_by t => sizeOf t
 decreasing_by
@@ -106,15 +273,15 @@ decreasing_by
     have := List.sizeOf_lt_of_mem ha
     omega
 
-/-- **Tree printing is sound**: the text of `to_smtlib(f, daggify=False)`, read with the standard's semantics, has the sort of `f` and, under
-every interpretation, the value of `f`.
+/-- **Tree printing is sound**: the text of `to_smtlib(f, daggify=False)`, read with the standard's semantics, has the
+sort of `f` and, under every interpretation, the value of `f`.
 
-`_partial`: (1) `avOrdered` — an array value with two or more assignments must list them in the order in which the printed
-chain of stores applies them (the equality of the two orders needs commutation of `Val.store` on distinct keys, not proved);
-(2) `Printable` excludes instances of parametric sorts and the terms of the known findings F10, F11, F44, F45, F46. -/
-theorem print_sound_partial (env : SEnv) (t : Term) (h : Printable env [] t = true) (ho : avOrdered t = true) :
+`_partial` only in its hypotheses: `Printable` excludes instances of parametric sorts and the terms of the known findings
+F10, F11, F44, F45, F46; `avGuard` is the natural guard on array values (keys pairwise different constants of a non-array
+index sort — what `FormulaManager.Array` builds). -/
+theorem print_sound_partial (env : SEnv) (t : Term) (h : Printable env [] t = true) (hg : avGuard t = true) :
     ∃ t' τ, readStdTy env [] (toSexp t) = .ok (t', τ) ∧ t.typeOf = some τ ∧ ∀ I, eval I t' = eval I t := by
   obtain ⟨τ, hty, hrd⟩ := read_toSexp_sort env t h
-  exact ⟨unfoldAV t, τ, hrd, hty, fun I => eval_unfoldAV t ho I⟩
+  exact ⟨unfoldAV t, τ, hrd, hty, fun I => by rw [unfoldAV_eq]; exact eval_unfoldAVw true t hg I⟩
 
 end PySMT.Printer
